@@ -18,16 +18,19 @@ pub(crate) use self::range::Range;
 pub use self::spanned::SourceLocation;
 pub(crate) use self::spanned::{Spanned, SpannedRawBytes};
 
-/// Unlike eq_ignore_ascii_case it only lowercases the first arg
+/// ASCII case-insensitive comparison of a name from the source with a name that has been
+/// lowercased as a string.
+///
+/// NOTE: `lowercased` may still contain bytes in the `A-Z` range: in encodings such as GB18030,
+/// Big5 or Shift_JIS they occur as trail bytes of multi-byte characters, which string-level
+/// lowercasing doesn't touch. The source bytes are folded byte-wise, so fold both sides.
 pub(crate) fn eq_case_insensitive(mixed_case: &[u8], lowercased: &[u8]) -> bool {
-    debug_assert!(lowercased.iter().all(|&b| b == b.to_ascii_lowercase()));
-
     if mixed_case.len() != lowercased.len() {
         return false;
     }
 
     for i in 0..mixed_case.len() {
-        if mixed_case[i].to_ascii_lowercase() != lowercased[i] {
+        if mixed_case[i].to_ascii_lowercase() != lowercased[i].to_ascii_lowercase() {
             return false;
         }
     }
